@@ -724,16 +724,24 @@ fn files_cli(texts: &[(String, String)]) -> CliObs {
     CliObs { code: status.and_then(|s| s.code()), signal: status.and_then(|s| s.signal()), timed_out, out_exists, stderr_head }
 }
 
-fn run_workspace_case(texts: &[(String, String)]) -> Outcome {
+fn run_workspace_case(texts: &[(String, String)], prog: Option<&crate::gen::Program>) -> Outcome {
     let shown = || texts.iter().map(|(n, t)| format!("{n}: {}", show(t))).collect::<Vec<_>>().join(" ; ");
-    let case = || json!({"subject": "workspace", "modules": crate::props::c01::texts_json(texts)["modules"]});
+    let case = || json!({"subject": "workspace", "ast": prog, "modules": crate::props::c01::texts_json(texts)["modules"]});
     // 1. in-process: the library pipeline the front ends share
     let files = crate::pipeline::files_of(texts);
     let inproc = match crate::pipeline::run(&files, "main.oal") {
         crate::pipeline::Run::LoadPanic(p) | crate::pipeline::Run::BackendPanic(p) => {
+            // The cause is decided as in C01: a program that is rejected once its modules are
+            // merged into one was let through by the per-module inference (D4).
+            let cause = crate::props::c01::cause_class(prog);
+            let sig = if cause == "cross-module" {
+                "panic | back end | accepted, but rejected (InvalidType) once the imported declarations are merged into the importing module | program of several modules".to_owned()
+            } else {
+                format!("panic | {} | {cause} | program of several modules", panic_site(&p))
+            };
             return Outcome::bad(
                 "violation",
-                format!("panic | {} | program of several modules", panic_site(&p)),
+                sig,
                 format!("panic at {}: {} on {}", p.location, p.message.chars().take(160).collect::<String>(), shown()),
                 case(),
             )
@@ -922,8 +930,8 @@ impl Engine for C04 {
                     let texts = crate::gen::print(prog).texts;
                     sink.visit(
                         idx,
-                        || json!({"subject": "workspace", "modules": crate::props::c01::texts_json(&texts)["modules"]}),
-                        |_| run_workspace_case(&texts),
+                        || json!({"subject": "workspace", "ast": prog, "modules": crate::props::c01::texts_json(&texts)["modules"]}),
+                        |_| run_workspace_case(&texts, Some(prog)),
                     );
                 }
             }
@@ -964,7 +972,8 @@ impl Engine for C04 {
     fn replay(&self, case: &Value) -> Outcome {
         let text = case["text"].as_str().unwrap_or("");
         if case["subject"] == "workspace" {
-            return run_workspace_case(&crate::props::c01::texts_from_json(case));
+            let prog = serde_json::from_value::<crate::gen::Program>(case["ast"].clone()).ok();
+            return run_workspace_case(&crate::props::c01::texts_from_json(case), prog.as_ref());
         }
         if case["subject"] == "cli" {
             match check_cli(text) {
